@@ -25,6 +25,7 @@ from __future__ import annotations
 import hashlib
 import logging
 import math
+import os
 
 import numpy as np
 from hypothesis import strategies as st
@@ -48,12 +49,13 @@ RULE = ("cases = (A) generated (mu from {Earth-Moon, Sun-Earth, Sun-Jupiter} + l
 ASSUMPTIONS = [
     "a monomial is 'resonant' for the full normal form iff |(k3-k0)lam + i(k4-k1)om1 + i(k5-k2)om2| < 1e-14, the documented resonance_tol default of normal/_lie.py and wrappers.py; divisors within 64 eps S_k of that threshold are not judged",
     "'no monomial' is read up to the rounding of the single operation that removes it: |coef_k| <= 64 eps S_k |g_k| + 2|{H2 - H2(linear_modes), G_n}|_k + tol_lie max(1,|divisor|), S_k = sum_m |eta_m|(k_m + k_{m+3}); this is >= 1e10 times smaller than an uneliminated coefficient |g_k * divisor_k| unless S_k/|divisor_k| > 1e4",
-    "slopes: error (own long-double evaluation of the decoded polynomials) summed over the generated directions on rungs r0*2^(-j/2); a rung is usable when the error is >= 30x the floor = 64 eps_longdouble * majorants + eps_double * (largest coefficient of each degree) on every monomial (rounding of the library's coefficient arithmetic) + cleaning tolerance of the series + 1e-12 * displacement for the integrated flows (rtol 1e-13 on the displacement, verified on a closed-form flow); slopes are taken over two rungs (factor 2 in r); the observed order = max(two finest slopes, Richardson extrapolation 2 s(r/2) - s(r) of the finest one) must be >= order - 0.5 (when the finest measurable slope still starts where the non-linear part of the map exceeds 25% of the linear part, only < order - 1 fails and [order-1, order-0.5) is inconclusive); fewer than 2 slopes => counted trivial, never failed",
+    "slopes: error (own long-double evaluation of the decoded polynomials) summed over the generated directions on rungs r0*2^(-j/2); a rung is usable when the error is >= 30x the floor = 64 eps_longdouble * majorants + eps_double * (largest coefficient of each degree of H_old, H_new and of the eliminated part g_k*divisor_k; resp. of the series) on every monomial (rounding of the library's coefficient arithmetic) + cleaning tolerance of the series + 1e-12 * displacement for the integrated flows (rtol 1e-13 on the displacement, verified on a closed-form flow); slopes are taken over two rungs (factor 2 in r); the observed order = max(two finest slopes, Richardson extrapolation 2 s(r/2) - s(r) of the finest one) must be >= order - 0.5 ; a failure needs the 6 finest consecutive slopes (three octaves of r) all below order - 0.5 (an error of the right order with a large next term can dip below on at most 3-4 rungs while recovering from a cancellation; an error of lower order stays low down to the floor); anything else is inconclusive and counted trivial; fewer than 2 slopes => counted trivial, never failed",
     "the ladder starts at the largest rung at which the non-linear part of the coordinate change (majorant) does not exceed the linear part, i.e. 'small z' is relative to the size of the returned series; only the finest rungs decide",
     "forward series = _lie_expansion(inverse=False) is the map new -> old coordinates (docstring: 'Forward Mode: From normalized to original coordinates')",
     "full normal form coordinate series: _lie_expansion(G_full, N, psi, clmo, restrict=False) with the function's default tolerances (the pipeline exposes only the partial series)",
 ]
 logging.disable(logging.CRITICAL)
+os.environ.setdefault("NUMBA_NUM_THREADS", "1")   # --replay / in-process runs: same single-threaded kernels as the shards
 
 EPS = 2.220446049250313e-16
 LD = np.clongdouble
@@ -246,14 +248,19 @@ def slopes_from(rungs):
     return out
 
 
-def judge(rungs, order, nu=None):
-    """(verdict, observed order, slopes): verdict None when fewer than 2 slopes are measurable or when inconclusive.
+NLOW = 6
+
+
+def judge(rungs, order):
+    """(verdict, observed order, slopes).
     observed order = max(the two finest two-rung slopes, Richardson extrapolation 2 s(r/2) - s(r) of the finest slope to
     r = 0: for an analytic error a r^p (1 + b r + ...) the local slope is p + b r + O(r^2)).
-    nu(j): size of the non-linear part of the map relative to the linear part at rung j.  When the finest measurable
-    slope still starts at nu > 0.25 (rounding floor reached before the asymptotic regime, high degrees only) the
-    deviation b r of the local slope is not small: then only observed < order - 1 is a failure and
-    [order - 1, order - 0.5) is inconclusive."""
+      True  : observed order >= order - 0.5;
+      False : the NLOW finest slopes (three octaves of r, consecutive rungs, all >= 30x above the floor) are all below
+              order - 0.5.  An error a r^p + b r^(p+1) of the *right* order can show slopes below p - 0.5 only while
+              b r / a is in (0.45, 1.26) (recovery from a cancellation), i.e. on at most 3-4 consecutive rungs, whereas an
+              error of lower order keeps them low down to the floor;
+      None  : fewer than 2 slopes measurable, or low slopes on fewer than NLOW consecutive finest rungs (inconclusive)."""
     sl = slopes_from(rungs)
     if len(sl) < 2:
         return None, None, sl
@@ -265,9 +272,10 @@ def judge(rungs, order, nu=None):
     best = max(cand)
     if best >= order - 0.5:
         return True, best, sl
-    if nu is not None and nu(jf) > 0.25 and best >= order - 1.0:
-        return None, best, sl
-    return False, best, sl
+    tail = [d.get(jf - i) for i in range(NLOW)]
+    if all(t is not None and t < order - 0.5 for t in tail):
+        return False, best, sl
+    return None, best, sl
 
 
 def fmt_rungs(rungs, r0, n=8):
@@ -301,8 +309,16 @@ class Instance:
         self.st = {w: PolyStack([p.pair() for p in self.ser[w]]) for w in ("fwd", "inv")}
         self.nl = {w: PolyStack([p.part(2).pair() for p in self.ser[w]]) for w in ("fwd", "inv")}
         # scales of the coefficient noise (rounding of the library's bracket arithmetic), per degree
+        # (input, output and the eliminated part |g_k * divisor_k| that the brackets had to produce and cancel)
         ao, an = self.Hold.maxabs_by_degree(self.N), self.Hnew.maxabs_by_degree(self.N)
-        self.A = np.array([max(ao[d], an[d]) if d >= 3 else 0.0 for d in range(self.N + 1)])
+        ae = [0.0] * (self.N + 1)
+        for n in range(3, self.N + 1):
+            g = self.G[n]
+            if g is not None and len(g.c):
+                Kg = g.K
+                div = (Kg[:, 3] - Kg[:, 0]) * self.eta[0] + (Kg[:, 4] - Kg[:, 1]) * self.eta[1] + (Kg[:, 5] - Kg[:, 2]) * self.eta[2]
+                ae[n] = float(np.max(np.abs(g.c * div)))
+        self.A = np.array([max(ao[d], an[d], ae[d]) if d >= 3 else 0.0 for d in range(self.N + 1)])
         self.B = {}
         for w in ("fwd", "inv"):
             per = [p.maxabs_by_degree(self.N) for p in self.ser[w]]
@@ -549,16 +565,16 @@ def run_oracles(inst, ctx, case, tag, flows=True, reduced=False):
     r0 = pick_r0(lambda z0, r: nonlin_series(inst, z0, r), dirs)
     info["r0"] = r0
 
-    def slope_check(name, errf, order, r, jm=48, measure=nonlin_series):
+    def slope_check(name, errf, order, r, jm=48):
         rungs = ladder(errf, dirs, r, jm)
-        ok, best, sl = judge(rungs, order, lambda j: max(measure(inst, z0, r * 2.0 ** (-j / 2.0)) for z0 in dirs))
+        ok, best, sl = judge(rungs, order)
         info[name] = None if ok is None else round(best, 2)
         if ok is None and best is not None:
             info[name + ":inconclusive"] = round(best, 2)
         if ok is False:
             ctx.fail("%s:%s:%s" % (name, kind, tag), case,
                      "%s: expected O(r^%d), observed order %.2f (finest slopes: %s); %s"
-                     % (name, order, best, ["%.2f" % s for _, s in sl[-4:]], fmt_rungs(rungs, r)))
+                     % (name, order, best, ["%.2f" % s for _, s in sl[-NLOW:]], fmt_rungs(rungs, r)))
         return ok
     if r0 is not None:
         # the library's own evaluation of its series agrees with the decoded series (so that "the library's own
@@ -585,10 +601,14 @@ def run_oracles(inst, ctx, case, tag, flows=True, reduced=False):
         rf = pick_r0(lambda z0, r: nonlin_flow(inst, z0, r), dirs)
         info["r0_flow"] = rf
         if rf is not None:
-            slope_check("conjugacy-flow", err_conj_flow(inst), N + 1, rf, 28, nonlin_flow)
+            slope_check("conjugacy-flow", err_conj_flow(inst), N + 1, rf, 28)
             if r0 is not None:
-                slope_check("series-vs-flow", err_series_vs_flow(inst), N + 1, min(rf, r0), 28, nonlin_flow)
+                slope_check("series-vs-flow", err_series_vs_flow(inst), N + 1, min(rf, r0), 28)
     return info
+
+
+def _outcome(info, k):
+    return "measured" if info.get(k) is not None else "inconclusive" if info.get(k + ":inconclusive") is not None else "below-floor"
 
 
 # ===================================================================== library drivers
@@ -675,8 +695,8 @@ def eval_pipeline(case, ctx):
     cls = ["A", "A:L%d" % idx, "A:N=%d" % N, "A:" + _div_band(mind), "A:mu=" + (suite[0] if suite else "generated"),
            "A:default-tol-series-" + ("identical" if same else "differs")]
     for nm, inf in (("partial", infop), ("full", infof)):
-        for k in ("conjugacy-series", "conjugacy-flow", "series-vs-flow", "inverse-after-forward", "forward-after-inverse", "canonicity-forward", "canonicity-inverse"):
-            cls.append("A:%s:%s:%s" % (nm, k, "measured" if inf.get(k) is not None else "below-floor"))
+        for k in SLOPE_CHECKS:
+            cls.append("A:%s:%s:%s" % (nm, k, _outcome(inf, k)))
     ctx.case(nontrivial=nt, cls=cls, sample={"case": {k: case[k] for k in ("mu", "point", "N")}, "modes": modes, "min_divisor": mind,
                                              "partial": infop, "full": infof})
 
@@ -729,8 +749,8 @@ def eval_synthetic(case, ctx):
     ok = N >= 4 and info["nG"] >= 10 and info.get("conjugacy-series") is not None and info.get("conjugacy-flow") is not None
     nt = ("B", hashlib.blake2b(repr(case).encode(), digest_size=8).hexdigest()) if ok else None
     cls = ["B", "B:" + kind, "B:N=%d" % N, "B:" + _div_band(mind), "B:ratio=" + case.get("ratio_kind", "?")]
-    for k in ("conjugacy-series", "conjugacy-flow", "series-vs-flow", "inverse-after-forward", "forward-after-inverse", "canonicity-forward", "canonicity-inverse"):
-        cls.append("B:%s:%s" % (k, "measured" if info.get(k) is not None else "below-floor"))
+    for k in SLOPE_CHECKS:
+        cls.append("B:%s:%s" % (k, _outcome(info, k)))
     cls.append("B:eliminated>=10" if info["nG"] >= 10 else "B:eliminated<10")
     ctx.case(nontrivial=nt, cls=cls, sample={"N": N, "kind": kind, "modes": modes, "nterms": len(case["terms"]), "info": info} if ctx.evaluations % 23 == 0 else None)
 
@@ -753,7 +773,7 @@ def _logu(lo, hi):
 @st.composite
 def pipeline_case(draw, nmax):
     mu = draw(st.one_of(st.sampled_from(sorted(SUITE_MUS.values())), _logu(1e-4, 0.3), _logu(1e-4, 0.3)))
-    return {"cls": "A", "mu": float(mu), "point": draw(st.integers(1, 2)), "N": draw(st.integers(3, nmax)),
+    return {"cls": "A", "mu": float(mu), "point": draw(st.integers(1, 2)), "N": draw(st.sampled_from(list(range(3, nmax + 1)))),
             "dirs": draw(st.lists(_dir, min_size=2, max_size=2))}
 
 
@@ -763,7 +783,7 @@ _RATIOS = [GOLD, math.sqrt(2.0) - 1.0 + 0.3, 1.0 / math.e + 0.4, math.pi / 4.0, 
 
 @st.composite
 def synthetic_case(draw, nmax):
-    N = draw(st.integers(3, nmax))
+    N = draw(st.sampled_from(list(range(3, nmax + 1))))
     kind = draw(st.sampled_from(["partial", "full"]))
     lam = draw(st.floats(0.5, 4.0))
     om1 = draw(st.floats(0.5, 4.0))
@@ -831,6 +851,13 @@ def selftest():
     ok, best, _ = judge(rungs, 6)
     if ok is not False:
         raise HarnessError("slope self-test (negative) failed")
+    # right order with a large next term of opposite sign (cancellation at r = 1/800), floor cutting the recovery at any
+    # place: never a failure
+    for cut in range(8, 40):
+        rungs = [(j, abs((2.0 ** (-5 - j / 2.0)) ** 7 * (1.0 - 800.0 * 2.0 ** (-5 - j / 2.0))), 0.0 if j < cut else 1.0) for j in range(44)]
+        ok, best, _ = judge(rungs, 7)
+        if ok is False:
+            raise HarnessError("slope self-test (cancellation dip, cut %d) failed: %r" % (cut, best))
 
 
 def run(ctx):
